@@ -684,6 +684,7 @@ func c09Run(sc *c09Scen, prefix, expectN []int) (*sched.Result, *c09Outcome) {
 			out.viol = append(out.viol, "watch-fails: "+err.Error())
 			return
 		}
+		sched.NoteStream(stream)
 		pending := 0
 		spawn := func(name string, fn func()) {
 			pending++
